@@ -169,6 +169,7 @@ func (w *worker) resetPath(job *Job, pre []int8) {
 	e.witnesses = map[string]Value{}
 	e.witnessOrder = nil
 	e.vfs = nil
+	e.vfsOnlyPrefixes = nil
 	e.resetFacts()
 	e.budget = job.Budget
 	if job.MaxDepth > 0 {
